@@ -457,8 +457,10 @@ def BU_bundle(ctx):
             for bl in b['blocks']:
                 t = bl['term']
                 if t['k'] == 'call':
+                    # called directly, or handed to a combinator as a function item (`map_or(0, AccountRevert::size_hint)`)
+                    names = [t['callee']] + [a['fndef'] for a in t['args'] if a.get('k') == 'const' and 'fndef' in a]
                     for h in ('TransitionAccount::has_new_contract', 'TransitionAccount::present_bundle_account', 'TransitionAccount::create_revert', 'AccountRevert::size_hint', 'BundleAccount::size_hint', 'BundleRetention::includes_reverts'):
-                        if t['callee'].endswith(h):
+                        if any(n.endswith(h) for n in names):
                             okh.add(h.split('::')[-1] + '@' + h.split('::')[0])
     for bl in f.b['blocks']:
         t = bl['term']
@@ -559,7 +561,21 @@ def T6_slots_installed(ctx):
         for e in ext:
             n_items += 1
             items = []
-        consumed = ext or [e for e in p.events if e.kind == 'call' and e.d['callee'].endswith('::next') and mentions(e.d['args'][0], ('arg', 3))]
+        # `storage.into_iter().collect::<DashMap<_, _>>()` (or from_iter) builds the fresh map with every slot in it
+        col = [e for e in p.events if e.kind == 'call' and (e.d['callee'].endswith('::collect') or e.d['callee'].endswith('::from_iter')) and e.d['args'] and mentions(e.d['args'][0], ('arg', 3))]
+        for e in col:
+            n_items += 1
+            inst = [x for x in p.events if x.kind == 'call' and callee_matches(x.d['callee'], ('VacantEntry::insert', 'DashMap::insert')) and
+                    any(strip(a) == strip(e.d['result']) for a in x.d['args'][1:]) and
+                    (mentions_field(x.d['args'][0], 'ParallelCacheState.storage') or
+                     any(s[0] == 'call' and norm_callee(s[1]).endswith('DashMap::entry') and mentions_field(s[2][0], 'ParallelCacheState.storage') and strip(s[2][1]) == ('arg', 2)
+                         for s in subterms(x.d['args'][0])))]
+            if not inst:
+                bad.append((p, idx_of(p, e), 'slots are collected into a fresh map that is never installed for the address'))
+            else:
+                arms.add('vacant')
+        consumed = ext or col or [e for e in p.events if e.kind == 'call' and e.d['callee'].endswith('::next') and mentions(e.d['args'][0], ('arg', 3))] or \
+            [a for a in p.events if a.kind == 'atom' and a.d['term'][0] == 'discr' and a.d['term'][1][0] == 'call' and a.d['term'][1][1].endswith('::next') and mentions(a.d['term'][1], ('arg', 3))]
         if not consumed:
             bad.append((p, len(p.events) - 1, 'this arm returns without writing the slots it was given'))
         for i, item in items:
